@@ -34,31 +34,36 @@ BuiltinsT == {"println", "print", "array_length", "at", "array_set", "array_push
               "char_at", "string_from_char", "string_to_int",
               "map_new", "map_put", "map_get", "map_has", "map_size", "map_length", "map_remove"}
 IsTypedMap(t) == t.k = "map" /\ MapKeyOk(t.a[1]) /\ MapKeyOk(t.a[2])
+\* SPECIFICATION 3.4.2 "I treat these constants as integers": a value of an enum type is accepted wherever an int is
+\* (operands of arithmetic and comparison, int parameters of builtins, int keys and values of maps)
+IntLike(t) == t = TInt \/ t.k = "enum"
+KeyOk(want, got) == want = got \/ (want = TInt /\ got.k = "enum")
 BuiltinType(name, ts) ==
    LET n == Len(ts) IN
    CASE name \in {"println", "print"} -> IF n # 1 THEN Err("arity") ELSE TVoid      \* print accepts a value of any type (9.5)
      [] name = "array_length" -> IF n # 1 THEN Err("arity") ELSE IF ts[1].k = "arr" THEN TInt ELSE Err("argtype")
-     [] name = "at" -> IF n # 2 THEN Err("arity") ELSE IF ts[1].k = "arr" /\ ts[2] = TInt /\ ts[1].a[1].k # "any" THEN ts[1].a[1] ELSE Err("argtype")
-     [] name = "array_set" -> IF n # 3 THEN Err("arity") ELSE IF ts[1].k = "arr" /\ ts[2] = TInt /\ Compat(ts[1].a[1], ts[3]) THEN TVoid ELSE Err("argtype")
+     [] name = "at" -> IF n # 2 THEN Err("arity") ELSE IF ts[1].k = "arr" /\ IntLike(ts[2]) /\ ts[1].a[1].k # "any" THEN ts[1].a[1] ELSE Err("argtype")
+     [] name = "array_set" -> IF n # 3 THEN Err("arity") ELSE IF ts[1].k = "arr" /\ IntLike(ts[2]) /\ Compat(ts[1].a[1], ts[3]) THEN TVoid ELSE Err("argtype")
      [] name = "array_push" -> IF n # 2 THEN Err("arity") ELSE IF ts[1].k = "arr" /\ Compat(ts[1].a[1], ts[2]) THEN ts[1] ELSE Err("argtype")
      [] name = "array_pop" -> IF n # 1 THEN Err("arity") ELSE IF ts[1].k = "arr" /\ ts[1].a[1].k # "any" THEN ts[1].a[1] ELSE Err("argtype")
      [] name = "str_length" -> IF n # 1 THEN Err("arity") ELSE IF ts[1] = TStr THEN TInt ELSE Err("argtype")
-     [] name = "int_to_string" -> IF n # 1 THEN Err("arity") ELSE IF ts[1] = TInt THEN TStr ELSE Err("argtype")
-     [] name = "str_substring" -> IF n # 3 THEN Err("arity") ELSE IF ts[1] = TStr /\ ts[2] = TInt /\ ts[3] = TInt THEN TStr ELSE Err("argtype")
+     [] name = "int_to_string" -> IF n # 1 THEN Err("arity") ELSE IF IntLike(ts[1]) THEN TStr ELSE Err("argtype")
+     [] name = "str_substring" -> IF n # 3 THEN Err("arity") ELSE IF ts[1] = TStr /\ IntLike(ts[2]) /\ IntLike(ts[3]) THEN TStr ELSE Err("argtype")
      [] name \in {"str_contains", "str_equals"} -> IF n # 2 THEN Err("arity") ELSE IF ts[1] = TStr /\ ts[2] = TStr THEN TBool ELSE Err("argtype")
      [] name = "str_concat" -> IF n # 2 THEN Err("arity") ELSE IF ts[1] = TStr /\ ts[2] = TStr THEN TStr ELSE Err("argtype")
-     [] name = "char_at" -> IF n # 2 THEN Err("arity") ELSE IF ts[1] = TStr /\ ts[2] = TInt THEN TInt ELSE Err("argtype")
-     [] name = "string_from_char" -> IF n # 1 THEN Err("arity") ELSE IF ts[1] = TInt THEN TStr ELSE Err("argtype")
+     [] name = "char_at" -> IF n # 2 THEN Err("arity") ELSE IF ts[1] = TStr /\ IntLike(ts[2]) THEN TInt ELSE Err("argtype")
+     [] name = "string_from_char" -> IF n # 1 THEN Err("arity") ELSE IF IntLike(ts[1]) THEN TStr ELSE Err("argtype")
      [] name = "string_to_int" -> IF n # 1 THEN Err("arity") ELSE IF ts[1] = TStr THEN TInt ELSE Err("argtype")
-     [] name = "abs" -> IF n # 1 THEN Err("arity") ELSE IF ts[1] = TInt THEN TInt ELSE Err("argtype")
-     [] name \in {"min", "max"} -> IF n # 2 THEN Err("arity") ELSE IF ts[1] = TInt /\ ts[2] = TInt THEN TInt ELSE Err("argtype")
+     [] name = "abs" -> IF n # 1 THEN Err("arity") ELSE IF IntLike(ts[1]) THEN TInt ELSE Err("argtype")
+     [] name \in {"min", "max"} -> IF n # 2 THEN Err("arity") ELSE IF IntLike(ts[1]) /\ IntLike(ts[2]) THEN TInt ELSE Err("argtype")
      [] name = "map_new" -> IF n # 0 THEN Err("arity") ELSE TMap(TAny, TAny)
-     [] name = "map_put" -> IF n # 3 THEN Err("arity") ELSE IF IsTypedMap(ts[1]) /\ ts[2] = ts[1].a[1] /\ ts[3] = ts[1].a[2] THEN TVoid ELSE Err("argtype")
-     [] name = "map_get" -> IF n # 2 THEN Err("arity") ELSE IF IsTypedMap(ts[1]) /\ ts[2] = ts[1].a[1] THEN ts[1].a[2] ELSE Err("argtype")
-     [] name = "map_has" -> IF n # 2 THEN Err("arity") ELSE IF IsTypedMap(ts[1]) /\ ts[2] = ts[1].a[1] THEN TBool ELSE Err("argtype")
-     [] name = "map_remove" -> IF n # 2 THEN Err("arity") ELSE IF IsTypedMap(ts[1]) /\ ts[2] = ts[1].a[1] THEN TVoid ELSE Err("argtype")
+     [] name = "map_put" -> IF n # 3 THEN Err("arity") ELSE IF IsTypedMap(ts[1]) /\ KeyOk(ts[1].a[1], ts[2]) /\ KeyOk(ts[1].a[2], ts[3]) THEN TVoid ELSE Err("argtype")
+     [] name = "map_get" -> IF n # 2 THEN Err("arity") ELSE IF IsTypedMap(ts[1]) /\ KeyOk(ts[1].a[1], ts[2]) THEN ts[1].a[2] ELSE Err("argtype")
+     [] name = "map_has" -> IF n # 2 THEN Err("arity") ELSE IF IsTypedMap(ts[1]) /\ KeyOk(ts[1].a[1], ts[2]) THEN TBool ELSE Err("argtype")
+     [] name = "map_remove" -> IF n # 2 THEN Err("arity") ELSE IF IsTypedMap(ts[1]) /\ KeyOk(ts[1].a[1], ts[2]) THEN TVoid ELSE Err("argtype")
      [] name \in {"map_size", "map_length"} -> IF n # 1 THEN Err("arity") ELSE IF ts[1].k = "map" THEN TInt ELSE Err("argtype")
 
+UnionOfT(t) == IF t.k = "variant" THEN t.a[1] ELSE t.n
 RECURSIVE TypeOf(_, _, _), TypesOf(_, _, _, _, _)
 TypesOf(P, G, es, k, acc) == IF k > Len(es) THEN acc ELSE TypesOf(P, G, es, k + 1, Append(acc, TypeOf(P, G, es[k])))
 
@@ -71,15 +76,15 @@ TypeOf(P, G, e) ==
      [] e.k = "enum" -> LET p == FindEVT(P.enums, e.s, 1, 1) IN IF p[1] = 0 THEN Err("variant") ELSE Ty("enum", P.enums[p[1]].n, <<>>)
      [] e.k = "un" -> LET t == TypeOf(P, G, e.a[1]) IN
                       IF IsErr(t) THEN t
-                      ELSE IF e.s = "-" THEN (IF t = TInt THEN TInt ELSE Err("operand"))
+                      ELSE IF e.s = "-" THEN (IF IntLike(t) THEN TInt ELSE Err("operand"))
                       ELSE IF t = TBool THEN TBool ELSE Err("operand")
      [] e.k = "bin" -> LET l == TypeOf(P, G, e.a[1])  r == TypeOf(P, G, e.a[2]) IN
                       IF IsErr(l) THEN l ELSE IF IsErr(r) THEN r
                       ELSE IF e.s \in ArithOpsT THEN
-                           (IF l = TInt /\ r = TInt THEN TInt ELSE IF l = TFloat /\ r = TFloat THEN TFloat
+                           (IF IntLike(l) /\ IntLike(r) THEN TInt ELSE IF l = TFloat /\ r = TFloat THEN TFloat
                             ELSE IF e.s = "+" /\ l = TStr /\ r = TStr THEN TStr ELSE Err("operand"))
-                      ELSE IF e.s \in CmpOpsT THEN (IF (l = TInt /\ r = TInt) \/ (l = TFloat /\ r = TFloat) THEN TBool ELSE Err("operand"))
-                      ELSE IF e.s \in {"==", "!="} THEN (IF l = r /\ l.k \in {"int", "bool", "str", "enum", "float"} THEN TBool ELSE Err("operand"))
+                      ELSE IF e.s \in CmpOpsT THEN (IF (IntLike(l) /\ IntLike(r)) \/ (l = TFloat /\ r = TFloat) THEN TBool ELSE Err("operand"))
+                      ELSE IF e.s \in {"==", "!="} THEN (IF (l = r /\ l.k \in {"int", "bool", "str", "enum", "float"}) \/ (IntLike(l) /\ IntLike(r)) THEN TBool ELSE Err("operand"))
                       ELSE IF e.s \in {"and", "or"} THEN (IF l = TBool /\ r = TBool THEN TBool ELSE Err("operand"))
                       ELSE Err("operand")
      [] e.k = "ifx" -> LET c == TypeOf(P, G, e.a[1])  a == TypeOf(P, G, e.a[2])  b == TypeOf(P, G, e.a[3]) IN
@@ -117,7 +122,10 @@ TypeOf(P, G, e) ==
      [] e.k = "alit" -> LET ts == TypesOf(P, G, e.a, 1, <<>>) IN
                       IF AnyErr(ts) THEN FirstErr(ts)
                       ELSE IF Len(ts) = 0 THEN TArr(TAny)
-                      ELSE IF \E j \in 2..Len(ts) : ts[j] # ts[1] THEN Err("operand") ELSE TArr(ts[1])
+                      ELSE IF \A j \in 2..Len(ts) : ts[j] = ts[1] THEN TArr(ts[1])
+                      \* the variants of one union are values of that union (3.4.3): [Msg.Quit {}, Msg.Move { .. }] is an array<Msg>
+                      ELSE IF \A j \in 1..Len(ts) : ts[j].k \in {"variant", "union"} /\ UnionOfT(ts[j]) = UnionOfT(ts[1]) THEN TArr(Ty("union", UnionOfT(ts[1]), <<>>))
+                      ELSE Err("operand")
      [] e.k = "tlit" -> LET ts == TypesOf(P, G, e.a, 1, <<>>) IN IF AnyErr(ts) THEN FirstErr(ts) ELSE Ty("tuple", "", ts)
      [] e.k = "call" ->
           LET ts == TypesOf(P, G, e.a, 1, <<>>)
